@@ -22,6 +22,19 @@ def predArcsOK (new : Name) (succs old now : List Name) : Bool :=
     now.all (notIn succs) &&
     (if old.any succs.contains then now.count new == 1 else now == old)
 
+/-- Entries of other levels (the inside of regions): unchanged, except that a successor that was
+    one of `succs` may have been renamed (position-wise) to a block that did not exist before —
+    the renaming inside a region predecessor's exiting blocks. No arc, no back edge is lost. -/
+def otherLevelsOK (before after : Hier) (c : Name) (succs : List Name) : Bool :=
+  (before.filter (·.cont != c)).all fun b =>
+    match after.filter (fun a => a.cont == b.cont && a.name == b.name) with
+    | [a] =>
+      a.bes == b.bes && a.kind == b.kind && a.pay == b.pay && a.asg == b.asg && a.var == b.var &&
+      a.header == b.header && a.exiting == b.exiting &&
+      Scfg.zipAllB (fun o n => o == n || (succs.contains o && !b.bes.contains o &&
+        !(before.any (·.name == n)))) b.jts a.jts
+    | _ => false
+
 /-- `insert_block` on level `c`: the new block has exactly the successors `S`; every former arc
     from `P` into `S` runs through it; no other arc, no other block of the level changes, and a
     predecessor keeps everything but its successor tuple (and, for branching blocks, its
@@ -42,7 +55,8 @@ def insertSpecOK (before after : Hier) (c new : Name) (preds succs : List Name) 
         a.pay == b.pay && a.asg == b.asg && a.var == b.var
       else a == b
     | _ => false) &&
-  (la.all fun a => a.name == new || lb.any (·.name == a.name))
+  (la.all fun a => a.name == new || lb.any (·.name == a.name)) &&
+  otherLevelsOK before after c succs
 
 /-- One rerouted arc of `insert_block_and_control_blocks`: predecessor → fresh assignment block
     (assigning the head's variable a value the table maps back to the old target) → head. -/
@@ -75,7 +89,8 @@ def insertCtlSpecOK (before after : Hier) (c new : Name) (preds succs : List Nam
       | _ => false) &&
     -- everything added is the head or an assignment block feeding it
     (la.all fun a => a.name == new || lb.any (·.name == a.name) ||
-      (a.kind == .synthAssign && a.jts == [new]))
+      (a.kind == .synthAssign && a.jts == [new])) &&
+    otherLevelsOK before after c succs
   | _ => false
 
 /-- `join_returns`: afterwards exactly one exit, reached from every former exit; identity when
